@@ -9,6 +9,7 @@ import Drv.FA
 import Drv.Own
 import Drv.Rng
 import Drv.Sched
+import Drv.IVector
 open Lean Drv
 
 def dispatch (j : Json) : Json :=
@@ -33,6 +34,8 @@ def dispatch (j : Json) : Json :=
   | "own_check" => opOwnCheck j
   | "rng_keys" => opRngKeys j
   | "sched_check" => opSchedCheck j
+  | "iv" => opIV j
+  | "tree_reduce" => opTreeReduce j
   | "kmeans_dist" => opKMeansDist j
   | "kmeans_vw" => opKMeansVW j
   | op => obj [("err", Json.str s!"bad-op {op}")]
